@@ -436,32 +436,44 @@ d = tempfile.mkdtemp(prefix="ujc11fs_")
 out = []
 try:
     OLD = b"old value"
-    big = bytes(range(256)) * 200          # 51200 bytes
-    cases = {"binary": lambda p: st.BinaryFileStore(p).write(big), "pickle": lambda p: st.PickleFileStore(p).write([big, "tail"]),
-             "text": lambda p: st.TextFileStore(p).write("x" * 60000), "json": lambda p: st.JsonFileStore(p).write(["y" * 60000]),
-             "staged_write wb": lambda p: _sw(p)}
-    def _sw(p):
-        with staged_write(p, "wb") as f:
-            f.write(big)
-    for name, do in cases.items():
-        for pk in ("str", "pathlib"):
-            path = os.path.join(d, "%s_%s" % (name.replace(" ", "_"), pk))
-            with open(path, "wb") as f:
-                f.write(OLD)
-            os.utime(path, (1_600_000_000, 1_600_000_000))
-            resource.setrlimit(resource.RLIMIT_FSIZE, (8192, resource.RLIM_INFINITY))
-            try:
-                do(pathlib.Path(path) if pk == "pathlib" else path)
-                oc = "returned"
-            except OSError as e:
-                oc = "oserror"
-            except BaseException as e:
-                oc = "raised %s" % type(e).__name__
-            finally:
-                resource.setrlimit(resource.RLIMIT_FSIZE, (resource.RLIM_INFINITY, resource.RLIM_INFINITY))
-            content = open(path, "rb").read()
-            out.append({"case": name, "path": pk, "outcome": oc, "target_is_old": content == OLD, "target_len": len(content), "mtime_moved": os.stat(path).st_mtime != 1_600_000_000,
-                        "listing": sorted(x for x in os.listdir(d) if x.startswith(os.path.basename(path)))})
+    # (limit, payload scale): 8192 / large payloads fail inside the body's write; 1024 / payloads smaller than the io buffer fail only
+    # when the buffered data is flushed - at close
+    for limit, big, nchar in ((8192, bytes(range(256)) * 200, 60000), (1024, bytes(range(256)) * 12, 3000)):
+        def _sw(p):
+            with staged_write(p, "wb") as f:
+                f.write(big)
+        cases = {"binary": (lambda p: st.BinaryFileStore(p), big), "pickle": (lambda p: st.PickleFileStore(p), [big, "tail"]),
+                 "text": (lambda p: st.TextFileStore(p), "x" * nchar), "json": (lambda p: st.JsonFileStore(p), ["y" * nchar]),
+                 "staged_write wb": (None, None)}
+        for name, (mk, value) in cases.items():
+            for pk in ("str", "pathlib"):
+                path = os.path.join(d, "%s_%s_%d" % (name.replace(" ", "_"), pk, limit))
+                with open(path, "wb") as f:
+                    f.write(OLD)
+                os.utime(path, (1_600_000_000, 1_600_000_000))
+                pp = pathlib.Path(path) if pk == "pathlib" else path
+                store = mk(pp) if mk else None
+                resource.setrlimit(resource.RLIMIT_FSIZE, (limit, resource.RLIM_INFINITY))
+                try:
+                    store.write(value) if store is not None else _sw(pp)
+                    oc = "returned"
+                except OSError as e:
+                    oc = "oserror"
+                except BaseException as e:
+                    oc = "raised %s" % type(e).__name__
+                finally:
+                    resource.setrlimit(resource.RLIMIT_FSIZE, (resource.RLIM_INFINITY, resource.RLIM_INFINITY))
+                content = open(path, "rb").read()
+                readback = None
+                if oc == "returned" and store is not None:
+                    try:
+                        got = store.read()
+                        readback = "equal" if got == value and type(got) is type(value) else "a different value (%d bytes in the file)" % len(content)
+                    except BaseException as e:
+                        readback = "raises %s" % type(e).__name__
+                out.append({"case": name, "path": pk, "limit": limit, "outcome": oc, "readback": readback, "target_is_old": content == OLD, "target_len": len(content),
+                            "mtime_moved": os.stat(path).st_mtime != 1_600_000_000,
+                            "listing": sorted(x for x in os.listdir(d) if x.startswith(os.path.basename(path)))})
 finally:
     shutil.rmtree(d, ignore_errors=True)
 print(json.dumps({"uberjob": os.path.dirname(st.__file__), "out": out}))
@@ -483,10 +495,10 @@ def file_size_limit(ctx):
     if not rep["uberjob"].startswith(core.REPO_SRC):
         ctx.broke("C11 helper imported uberjob from the wrong place", rep["uberjob"])
     for r in rep["out"]:
-        ctx.case(("c11-file-size-limit", r["case"], r["path"]))
+        ctx.case(("c11-file-size-limit", r["case"], r["path"], r["limit"]))
         if r["outcome"] != "oserror" or not r["target_is_old"] or r["mtime_moved"] or len(r["listing"]) != 1:
-            ctx.fail("size-limit", "%s (%s path) under a file-size limit of 8192 bytes: the write %s; the target %s (%d bytes), its modified time %s; files: %r"
-                     % (r["case"], r["path"], r["outcome"], "keeps the previous value" if r["target_is_old"] else "no longer holds the previous value", r["target_len"],
+            ctx.fail("size-limit", "%s (%s path) under a file-size limit of %d bytes: the write %s; the target %s (%d bytes), its modified time %s; files: %r"
+                     % (r["case"], r["path"], r["limit"], r["outcome"], "keeps the previous value" if r["target_is_old"] else "no longer holds the previous value", r["target_len"],
                         "moved" if r["mtime_moved"] else "did not move", r["listing"]), r)
 
 
